@@ -58,12 +58,23 @@ func CheckC09(c C09Case, rec *Rec) error {
 		}
 	}
 	for e := 0; e < sc.Epochs; e++ {
+		if sc.Switch != nil && e == sc.Switch.At {
+			opts = sc.Switch.Opts.Build()
+			ctx = opts.NeatContext()
+		}
 		assign(e)
 		if err := exec.NextEpoch(ctx, e, pop); err != nil {
 			return fmt.Errorf("epoch %d: NextEpoch returned error: %v", e, err)
 		}
 	}
 	gen := sc.Epochs
+	if sc.Switch != nil && gen == sc.Switch.At {
+		opts = sc.Switch.Opts.Build()
+		ctx = opts.NeatContext()
+	}
+	if sc.Switch != nil && sc.Switch.At <= gen {
+		rec.Class("options object replaced during the history")
+	}
 	assign(gen)
 	popSize := opts.PopSize
 	// snapshot of the generation that is about to be turned over
